@@ -1185,7 +1185,25 @@ def run_C06(ctx):
         orig_add = hsolver.DependencyTracker.add_unmet
         orig_unatt = hsolver.Solver._add_unattempted
         orig_attempt = hsolver.Solver._attempt_field
+        orig_meet = hsolver.DependencyTracker.meet
         count = {'n': 0}
+        cur, early, loads = {}, [], {'n': 0}
+        orig_addform = hsolver.Solver._add_form
+
+        def addform(self, *a, loads=loads, **k):
+            loads['n'] += 1
+            return orig_addform(self, *a, **k)
+
+        def meet(self, dep, cur=cur, early=early):
+            # "released ... after that dependency is met": when a tracker is told a name is met, the
+            # solver must already hold the value (line) or the answer (input)
+            s = cur.get('solver')
+            if s is not None:
+                if self is s._input_dependencies and dep not in s._i:
+                    early.append(f'waiters of input {dep} were released although it has not been supplied')
+                if self is s._field_dependencies and dep not in s._v.values:
+                    early.append(f'waiters of line {dep} were released although it has no value')
+            return orig_meet(self, dep)
 
         def add_unmet(self, dep, dependent, regs=regs):
             regs.setdefault(dependent.name(), []).append(dep)
@@ -1196,7 +1214,8 @@ def run_C06(ctx):
                 queued[f.name()] = queued.get(f.name(), 0) + 1
             return orig_unatt(self, u)
 
-        def attempt(self, field, count=count):
+        def attempt(self, field, count=count, cur=cur):
+            cur['solver'] = self
             count['n'] += 1
             if count['n'] > 20000:
                 raise RuntimeError('watchdog: more than 20000 attempts')
@@ -1204,6 +1223,8 @@ def run_C06(ctx):
         hsolver.DependencyTracker.add_unmet = add_unmet
         hsolver.Solver._add_unattempted = add_unatt
         hsolver.Solver._attempt_field = attempt
+        hsolver.DependencyTracker.meet = meet
+        hsolver.Solver._add_form = addform
         try:
             try:
                 real, solver, log, prompts = c.run_real()
@@ -1214,7 +1235,11 @@ def run_C06(ctx):
             hsolver.DependencyTracker.add_unmet = orig_add
             hsolver.Solver._add_unattempted = orig_unatt
             hsolver.Solver._attempt_field = orig_attempt
+            hsolver.DependencyTracker.meet = orig_meet
+            hsolver.Solver._add_form = orig_addform
         checked += 1
+        for e in sorted(set(early)):
+            bad.append(('toy', c.protocol(), e))
         if real[0].startswith('verdict abort assertion'):
             bad.append(('toy', c.protocol(), 'the solver failed its own exit assertion (pending work was never drained): ' + real[0]))
             continue
@@ -1229,8 +1254,10 @@ def run_C06(ctx):
         for n, a in attempts.items():
             distinct = len(set(regs.get(n, [])))
             copies = max(1, queued.get(n, 1))
-            if a > copies * (2 + distinct) + 2:
-                bad.append(('toy', c.protocol(), f'{n} was evaluated {a} times; it was queued {copies} time(s) and waited on {distinct} distinct things'))
+            # the proved bound (SolverTermination.attempt_bound): pushes * (1 + distinct waits) + retries, a retry
+            # being an evaluation that made the solver load another form's specifications
+            if a > copies * (1 + distinct) + loads['n']:
+                bad.append(('toy', c.protocol(), f'{n} was evaluated {a} times; it was queued {copies} time(s), waited on {distinct} distinct things and {loads["n"]} form loads happened'))
         # every registered wait on something that got met was released: at the end no tracker holds a met name
         if solver._field_dependencies.has_met() or solver._input_dependencies.has_met():
             bad.append(('toy', c.protocol(), 'a met dependency was never drained'))
@@ -1252,7 +1279,7 @@ def run_C06(ctx):
                 bad.append(('scenario', scenario_replay(rr), 'an input was asked for more than once'))
     ctx.statement['c06-work'] = {
         'checked': checked, 'violations': len(bad), 'distinct_nontrivial': checked,
-        'rule': 'real solver on generated programs (cycles, self-reference, unknown names, refusing prompts) with a 20000-attempt watchdog, per-line attempt counters against queued x (2 + distinct waits) + 2, prompt counters, lost wake-up check at exit; real tracker histories against the multiset specification',
+        'rule': 'real solver on generated programs (cycles, self-reference, unknown names, refusing prompts) with a 20000-attempt watchdog, per-line attempt counters against the proved bound queued x (1 + distinct waits) + form loads, prompt counters, every tracker.meet checked against the stores (no release before the dependency is met), lost wake-up check at exit; real tracker histories against the multiset specification',
         'samples': [{'tracker_history': r['samples'][0][:10]}] if r['samples'] else [{}]}
     for kind, rep, p in bad:
         ctx.report('work:' + p[:60], p, {'kind': kind, 'case': rep})
